@@ -325,6 +325,29 @@ PROPS["C15"] = dict(
     floor=dict(quick=5000, thorough=50000),
 )
 
+PROPS["C05"] = dict(
+    level="exploration",
+    technique="coverage-guided fuzzing (libFuzzer) and rapidcheck over one structure-aware decode for 12 entry-point families (raw bytes; valid templates with DER-tree / handshake-message / byte edits; records protected with the real keys by an independent codec), plus a boundary-length enumerator; oracles inside the target: ASan+UBSan, per-instruction T0 stack-bound and instruction-count assertion (hook H2), configuration-field tripwire, status-consistency and no-stall checks",
+    rule=("case = (family among x509_minimal, x509_decoder, skey_decoder, pkey_decoder, pem_decoder, ECDSA converters/verifiers, RSA public ops, EC public ops, "
+          "TLS client / server before keys, TLS client / server after keys; input = raw tape bytes, or a template (3 fixture chains, every test/x509 "
+          "certificate, 5 generated 3-certificate chains, OpenSSL key encodings, sample PEM files, ECDSA signatures, 10 recorded TLS flights) with "
+          "1..6 structure-aware or byte edits, or a constructed boundary input; delivery under a generated chunking). non-trivial = the consumer got "
+          "past its first structural check (decoders: > 200-400 T0 instructions executed; TLS: more than one record header consumed; crypto families: "
+          "every case); distinct = (family, status class, input description incl. template and edit list) -- the (family, status) histogram and the count of distinct executed (interpreter, bytecode offset) pairs are reported in the evidence"),
+    assumptions=["documented preconditions are honoured: exact certificate length announced to start_cert, name-element buffers of >= 1 byte, EC curve id 0..31 and "
+                 "scalars non-zero / below the order / no longer than the order, hash length <= 64, in-place converter buffers of the documented worst-case size",
+                 "libFuzzer slow-unit / oom / timeout artifacts are load noise, only crash- artifacts that replay 3/3 count",
+                 "host build: the Xtensa stack-thunk and PROGMEM paths map to plain loads"],
+    targets=[dict(name="c05_fuzz", src="c05_fuzz.cpp", flavour="san", libs=SSL_LIBS, noseed=True, fuzz=True, extra_src=["c05_tls.hpp"])],
+    quick=[("c05_fuzz", "enum", dict(shards=8)),
+           ("c05_fuzz", "rc", dict(cases=40000, shards=12)),
+           ("c05_fuzz", "fuzz", dict(shards=12, runs=40000, max_len=512, max_total_time=40))],
+    thorough=[("c05_fuzz", "enum", dict(shards=16)),
+              ("c05_fuzz", "rc", dict(cases=1200000, shards=16)),
+              ("c05_fuzz", "fuzz", dict(shards=16, runs=3000000, max_len=2048, max_total_time=900))],
+    floor=dict(quick=20000, thorough=300000),
+)
+
 # ---------------------------------------------------------------- manifest text
 HOOK_COMMITS = ["b37444c", "e1637c5"]
 NOT_APPLICABLE = {}
@@ -477,4 +500,16 @@ MANIFEST_TEXT["C15"] = dict(
           "their getters; all suite singletons and a fifth (quick) or all (thorough) ordered suite pairs x 3 versions x 3 key kinds are enumerated."),
     design_ref="DESIGN.md section 4, C15",
     note="reference function independent of the T0 code; OpenSSL clients are not used here (covered in C01)",
+)
+
+MANIFEST_TEXT["C05"] = dict(
+    text=("Fuzzing with the semantic oracle inside the target: one structure-aware decode of the input bytes serves libFuzzer (coverage guided, seeded "
+          "from a committed corpus), rapidcheck and a boundary-length enumerator. Twelve entry-point families take raw bytes, edited valid templates "
+          "(DER tree edits that keep enclosing lengths right, handshake-message edits that keep record framing right, certificates inside TLS "
+          "flights) and, after a real handshake, arbitrary plaintext of every content type protected with the real keys. Beyond sanitizer reports "
+          "the target asserts, at every T0 instruction, that both interpreter stack pointers stay inside their 31/32-slot arrays and that the "
+          "instruction count stays below a linear bound in the input length, that configuration fields are untouched, that error and result are "
+          "never both reported, that returned pointers lie inside the context, and that an open engine never stops taking input while offering nothing."),
+    design_ref="DESIGN.md section 4, C05",
+    note="absence of memory errors is not proved; the boundary enumerator makes the known internal limits (520/512/256/133-byte areas, 3*512 key_data, 48 suites, 32 VM slots) certain to be visited",
 )
